@@ -5,6 +5,10 @@
 //!   small  --out f      structured cases: gradient families x boundary elapsed times, all small
 //!                       ordered reward pairs
 //!   random --seed S --n N --out f
+//!   unstake --seed S --n N --out f   REAL `unstake_lp` instructions (gmsol_liquidity_provider::entry) on
+//!                       fabricated accounts; the store (GT cumulative factor, GT mint) and the token program
+//!                       (transfer_checked, close_account) are mocked at the CPI boundary and recorded: the
+//!                       transferred amount of an event is the amount of the transfer the program issued
 //!
 //! Scaling (exact, see Apy.tla): APY values are passed as small integers (the function is scale
 //! free); reward operands are value = a*10^9, apy_per_sec = b*10^10, integral = c*10^19, which turns
@@ -188,6 +192,220 @@ fn random(args: &Args) -> i32 {
     0
 }
 
+// ---------------------------------------------------------------------------------------------
+// unstake_lp through the program entry
+mod unstake {
+    use anchor_lang::{
+        prelude::Pubkey,
+        solana_program::{instruction::Instruction, program_error::ProgramError, system_program},
+        AccountDeserialize, Discriminator, InstructionData,
+    };
+    use gmsol_liquidity_provider::{GlobalState, LpTokenController, Position, GLOBAL_STATE_SEED, POSITION_SEED, VAULT_SEED};
+    use h_aux::rt::{self, Acct};
+    use h_aux::util::{guarded, Args, Rng, Sink};
+    use serde_json::json;
+    use std::str::FromStr;
+
+    fn token_program() -> Pubkey {
+        Pubkey::from_str("TokenkegQfeZyiNwAJbNbGKPFXCWuBvf9Ss623VQ5DA").unwrap()
+    }
+    fn mint_data() -> Vec<u8> {
+        let mut d = vec![0u8; 82];
+        d[44] = 6;
+        d[45] = 1;
+        d
+    }
+    fn token_account_data(mint: &Pubkey, owner: &Pubkey, amount: u64) -> Vec<u8> {
+        let mut d = vec![0u8; 165];
+        d[0..32].copy_from_slice(mint.as_ref());
+        d[32..64].copy_from_slice(owner.as_ref());
+        d[64..72].copy_from_slice(&amount.to_le_bytes());
+        d[108] = 1;
+        d
+    }
+
+    pub struct Case {
+        pub amount: u64,
+        pub value: u64,
+        pub claim: bool,
+        pub minv: u64,
+        pub vault: u64,
+        pub u: u64,
+        pub integral: u64, // cumulative inverse cost since the last snapshot (0 = no reward minted)
+    }
+
+    /// one real unstake_lp on a fresh world
+    pub fn run_case(c: &Case, sink: &mut Sink) {
+        let pid = gmsol_liquidity_provider::ID;
+        let sid = gmsol_store::ID;
+        let tp = token_program();
+        let owner_k = rt::key(0x01, 9);
+        let store_k = rt::key(0x02, 9);
+        let mint_k = rt::key(0x03, 9);
+        let ctrl_k = rt::key(0x04, 9);
+        let (gs_k, gs_bump) = Pubkey::find_program_address(&[GLOBAL_STATE_SEED], &pid);
+        let position_id = 7u64;
+        let (pos_k, pos_bump) = Pubkey::find_program_address(&[POSITION_SEED, ctrl_k.as_ref(), owner_k.as_ref(), &position_id.to_le_bytes()], &pid);
+        let (vault_k, _) = Pubkey::find_program_address(&[VAULT_SEED, pos_k.as_ref()], &pid);
+        // borsh by hand (the structs have a private `reserved` vector)
+        let mut gs = GlobalState::DISCRIMINATOR.to_vec();
+        gs.extend_from_slice(rt::key(0xA0, 1).as_ref()); // authority
+        gs.extend_from_slice(Pubkey::default().as_ref()); // pending_authority
+        for k in 0..53u128 {
+            gs.extend_from_slice(&(k % 3).to_le_bytes()); // apy_gradient
+        }
+        gs.extend_from_slice(&(c.minv as u128).to_le_bytes());
+        gs.push(c.claim as u8);
+        gs.push(gs_bump);
+        gs.extend_from_slice(&300u32.to_le_bytes());
+        gs.extend_from_slice(&0u32.to_le_bytes()); // reserved: empty vec
+        let mut ct = LpTokenController::DISCRIMINATOR.to_vec();
+        ct.extend_from_slice(gs_k.as_ref());
+        ct.extend_from_slice(mint_k.as_ref());
+        ct.extend_from_slice(&0u64.to_le_bytes());
+        ct.extend_from_slice(&1u64.to_le_bytes()); // total_positions
+        ct.push(1); // is_enabled
+        ct.extend_from_slice(&0i64.to_le_bytes());
+        ct.extend_from_slice(&0u128.to_le_bytes());
+        ct.push(255);
+        ct.extend_from_slice(&0u32.to_le_bytes());
+        let prev_cum: u128 = 1000;
+        let mut ps = Position::DISCRIMINATOR.to_vec();
+        ps.extend_from_slice(owner_k.as_ref());
+        ps.extend_from_slice(ctrl_k.as_ref());
+        ps.extend_from_slice(mint_k.as_ref());
+        ps.extend_from_slice(vault_k.as_ref());
+        ps.extend_from_slice(&position_id.to_le_bytes());
+        ps.extend_from_slice(&c.amount.to_le_bytes());
+        ps.extend_from_slice(&(c.value as u128).to_le_bytes());
+        ps.extend_from_slice(&900i64.to_le_bytes()); // stake_start_time
+        ps.extend_from_slice(&prev_cum.to_le_bytes());
+        ps.push(pos_bump);
+        ps.extend_from_slice(&0u32.to_le_bytes());
+        let mut store = gmsol_store::states::Store::DISCRIMINATOR.to_vec();
+        store.extend_from_slice(bytemuck::bytes_of(&*rt::zeroed_box::<gmsol_store::states::Store>()));
+        let mut user = gmsol_store::states::UserHeader::DISCRIMINATOR.to_vec();
+        user.extend_from_slice(bytemuck::bytes_of(&*rt::zeroed_box::<gmsol_store::states::UserHeader>()));
+        user[8 + 16..8 + 48].copy_from_slice(owner_k.as_ref());
+        user[8 + 48..8 + 80].copy_from_slice(store_k.as_ref());
+
+        let global_state = Acct::new(gs_k, pid, 1_000_000, &gs);
+        let controller = Acct::new(ctrl_k, pid, 1_000_000, &ct);
+        let lp_mint = Acct::new(mint_k, tp, 1_000_000, &mint_data());
+        let store_a = Acct::new(store_k, sid, 1_000_000, &store);
+        let gt_program = Acct::program(sid);
+        let position = Acct::new(pos_k, pid, 1_000_000, &ps);
+        let vault = Acct::new(vault_k, tp, 1_000_000, &token_account_data(&mint_k, &gs_k, c.vault));
+        let owner = Acct::new(owner_k, system_program::ID, 1_000_000, &[]);
+        let gt_user = Acct::new(rt::key(0x05, 9), sid, 1_000_000, &user);
+        let user_lp = Acct::new(rt::key(0x06, 9), tp, 1_000_000, &token_account_data(&mint_k, &owner_k, 0));
+        let event_authority = Acct::new(rt::key(0x07, 9), system_program::ID, 0, &[]);
+        let token_prog = Acct::program(tp);
+
+        let cum_now = prev_cum + c.integral as u128;
+        rt::set_now(1_000);
+        rt::set_cpi_handler(Some(Box::new(move |ix: &Instruction, _infos, _seeds| {
+            if ix.program_id == gmsol_store::ID {
+                if ix.data[..8] == *gmsol_store::instruction::UpdateGtCumulativeInvCostFactor::DISCRIMINATOR {
+                    rt::set_return_data(gmsol_store::ID, cum_now.to_le_bytes().to_vec());
+                }
+                return Ok(()); // mint_gt_reward: recorded only
+            }
+            if ix.program_id == token_program() {
+                return Ok(()); // transfer_checked / close_account: recorded only
+            }
+            Err(ProgramError::IncorrectProgramId)
+        })));
+        rt::take_cpis();
+        let infos = vec![
+            global_state.info(false, false),
+            controller.info(false, true),
+            lp_mint.info(false, false),
+            store_a.info(false, true),
+            gt_program.info(false, false),
+            position.info(false, true),
+            vault.info(false, true),
+            owner.info(true, false),
+            gt_user.info(false, true),
+            user_lp.info(false, true),
+            event_authority.info(false, false),
+            token_prog.info(false, false),
+        ];
+        let data = gmsol_liquidity_provider::instruction::UnstakeLp { _position_id: position_id, unstake_amount: c.u }.data();
+        let r = guarded(|| rt::call(gmsol_liquidity_provider::entry, &pid, infos, &data));
+        let cpis = rt::take_cpis();
+        let (ok, panic, err) = match r {
+            Ok(Ok(())) => (true, false, String::new()),
+            Ok(Err(e)) => (false, false, format!("{e:?}")),
+            Err(()) => (false, true, "panic".into()),
+        };
+        let mut transfer = 0u64;
+        let mut closes = 0;
+        let mut minted = 0u64;
+        if ok {
+            for c in &cpis {
+                if c.program_id == tp && c.data.first() == Some(&12) {
+                    assert_eq!(c.metas[0].0, vault_k, "transfer source is the position vault");
+                    assert_eq!(c.metas[2].0, user_lp.key(), "transfer destination is the owner's token account");
+                    transfer += u64::from_le_bytes(c.data[1..9].try_into().unwrap());
+                } else if c.program_id == tp && c.data.first() == Some(&9) {
+                    closes += 1;
+                } else if c.program_id == sid && c.data[..8] == *gmsol_store::instruction::MintGtReward::DISCRIMINATOR {
+                    minted = u64::from_le_bytes(c.data[8..16].try_into().unwrap());
+                }
+            }
+        }
+        // the position after the instruction (a failed instruction leaves it as it was)
+        let closed = ok && position.owner() == system_program::ID && position.data().is_empty();
+        let (amount2, value2) = if !ok {
+            (c.amount, c.value)
+        } else if closed {
+            (0, 0)
+        } else {
+            let p = Position::try_deserialize(&mut &position.data()[..]).expect("position readable");
+            (p.staked_amount, p.staked_value_usd as u64)
+        };
+        let positions_left = if ok { LpTokenController::try_deserialize(&mut &controller.data()[..]).map(|c| c.total_positions).unwrap_or(99) } else { 1 };
+        sink.emit(json!({"op": "unstake", "panic": panic, "ok": ok, "err": err, "amount": c.amount, "value": c.value, "claim": c.claim,
+                         "minv": c.minv, "vault": c.vault, "u": c.u, "full": closed, "transfer": transfer, "amount2": amount2,
+                         "value2": value2, "vault_closed": closes, "positions_left": positions_left, "reward_minted": minted}));
+    }
+
+    pub fn main(args: &Args) -> i32 {
+        let mut sink = Sink::create(&args.str("out", "c38-unstake.ndjson"));
+        // the model's finite domain
+        for amount in 1..=6u64 {
+            for value in 0..=12u64 {
+                for u in 0..=7u64 {
+                    for claim in [false, true] {
+                        for minv in [0u64, 3] {
+                            for dust in [0u64, 2] {
+                                run_case(&Case { amount, value, claim, minv, vault: amount + dust, u, integral: 0 }, &mut sink);
+                            }
+                        }
+                    }
+                }
+            }
+        }
+        let mut rng = Rng::new(args.num("seed", 1));
+        for _ in 0..args.num("n", 2000) {
+            let amount = rng.range(1, 40_000) as u64;
+            let value = rng.below(50_000); // value * amount < 2^31
+            let u = match rng.below(6) {
+                0 => amount,
+                1 => amount + rng.below(3),
+                2 => 0,
+                _ => rng.range(1, amount as i64) as u64,
+            };
+            let minv = if rng.chance(1, 2) { 0 } else { rng.below(value + 2) };
+            run_case(&Case { amount, value, claim: !rng.chance(1, 3), minv, vault: amount + if rng.chance(1, 4) { rng.below(50) } else { 0 }, u,
+                             integral: if rng.chance(1, 2) { 0 } else { rng.below(1_000_000) } }, &mut sink);
+        }
+        eprintln!("events {}", sink.finish());
+        0
+    }
+}
+
 fn main() {
     h_aux::util::quiet_panics();
     h_aux::rt::install();
@@ -197,6 +415,7 @@ fn main() {
     let code = match mode.as_str() {
         "small" => small(&args),
         "random" => random(&args),
+        "unstake" => unstake::main(&args),
         _ => 2,
     };
     std::process::exit(code);
